@@ -31,7 +31,8 @@ const SM4_MODES: [&str; 4] = ["cbc", "cfb", "ofb", "ctr"];
 fn n_targets() -> usize {
     1 + 4 + 1 + 6 + 5 + 1 + 2 + 4 + 4 + 1 + 1 + 1 + 1
 }
-const SPECIALS: usize = 3 + crate::gen_c19::N_SEMANTIC + 1; // + SM9 identity-length sweep
+const SPECIALS: usize = 3 + crate::gen_c19::N_SEMANTIC + 1 + 1; // + SM9 identity-length sweep + long history
+const SOAK: usize = SPECIALS - 1;
 const ID_SWEEP: usize = 3 + crate::gen_c19::N_SEMANTIC; // kdf, compute_za, termination, well-formed-but-odd documents
 
 fn samples(t: Tier) -> usize {
@@ -400,6 +401,12 @@ pub fn run_c20(p: &mut Prng, tier: Tier, i: usize, sink: &mut Sink) {
                 }
             }
             w.bump("history.sm9-identity-sweep");
+        }
+        x if x == SOAK => {
+            // a long history in one process: more distinct (identity, key) pairs than any table or
+            // memo the library could reasonably keep (2^16) is willing to hold
+            w.exec(json!({"op":"entry.soak.sm2","kind":"cheap","n":tier.pick(70_000, 300_000),"seed":p.next_u64()}));
+            w.exec(json!({"op":"entry.soak.sm2","n":tier.pick(5_000, 70_000),"seed":p.next_u64()}));
         }
         3 | 4 | 5 | 6 => {
             crate::gen_c19::semantic_docs(p, &mut w, i - nt * CHUNKS - 3);
